@@ -6,11 +6,11 @@ package chainsim
 
 import (
 	"bytes"
-	"os"
 	"errors"
 	"fmt"
 	"io"
 	"math/big"
+	"os"
 	"sort"
 
 	"github.com/dominant-strategies/go-quai/common"
